@@ -88,11 +88,15 @@ class BuildResult:
         self.log = ""
 
 
-def extract_tables(br: BuildResult):
+def extract_tables(br: BuildResult, names):
+    """Regenerate all Generated/*.lean (cheap). Only a failure to extract a table this property
+    depends on (`names`) breaks this property's tie."""
     rc, out, err = run([VENV_PY, str(VERIF / "py" / "extract.py")], cwd=str(VERIF), timeout=600)
-    if rc != 0:
+    failed = set(re.findall(r"EXTRACT-FAILED (\S+)", out))
+    mine = {n.upper() for n in names}
+    if (rc != 0 and not failed) or (failed & mine):
         br.ok = False
-        br.broken.append({"stage": "extract (Tie A)", "detail": (out + err)[-2000:]})
+        br.broken.append({"stage": "extract (Tie A)", "tables": sorted(failed & mine) or "all", "detail": (out + err)[-2000:]})
 
 
 def lake_build(targets, br: BuildResult, stage="lake build"):
@@ -163,11 +167,11 @@ def audit(pid: str, br: BuildResult):
         br.broken.append({"stage": "grep", "detail": "; ".join(hits[:20])})
 
 
-def prepare(pid: str, tier: str) -> BuildResult:
+def prepare(pid: str, tier: str, tables=None) -> BuildResult:
     """Tie A + build + audit, serialised across concurrently running checks."""
     br = BuildResult()
     with Lock():
-        extract_tables(br)
+        extract_tables(br, [pid] + list(tables or []))
         # the driver first: it does not depend on the proofs, so the search can run even if a
         # proof obligation broke.
         lake_build(["rattr_model"], br, stage="lake build (model+driver)")
